@@ -733,7 +733,30 @@ pub fn diff_native<G: AffineRepr + 'static>(shape: &crate::r1cs::Shape, seed: u6
         Ok(p) => {
             rewind_for_verifier(&shr);
             let mut vt = new_verifier_transcript(shape);
+            let log_from = merlin::vlog::len();
             out.push(("implementation's proof accepted by the implementation".into(), build_verifier(shape, &shr, &mut vt).verify(&p, &pc, &bp).is_ok()));
+            // a proof whose two blinding scalars are shifted in a way that cancels in the combined check for the batching
+            // challenge of the honest run -- (t_x_blinding - d, e_blinding + r d): both unbatched relations fail, so the
+            // implementation must reject it too (it does unless r does not depend on the scalars)
+            {
+                let log = merlin::vlog::since(log_from);
+                let r_chal = log.iter().filter(|e| e.op == "challenge" && e.label == b"r").last().map(|e| {
+                    let mut sd = [0u8; 32];
+                    sd.copy_from_slice(&e.data);
+                    G::ScalarField::rand(&mut rand_chacha::ChaChaRng::from_seed(sd))
+                });
+                if let Some(rc) = r_chal {
+                    let (pts, scs, ipp) = p.verif_parts();
+                    let dd = G::ScalarField::from(seed + 5);
+                    let forged = ark_bulletproofs::r1cs::R1CSProof::verif_from_parts(pts, [scs[0], scs[1] - dd, scs[2] + rc * dd], ipp.clone());
+                    rewind_for_verifier(&shr);
+                    let rv = ref_verify(shape, &shr, B, Bb, &Gs, &Hs, &forged);
+                    rewind_for_verifier(&shr);
+                    let mut vt2 = new_verifier_transcript(shape);
+                    let iv = build_verifier(shape, &shr, &mut vt2).verify(&forged, &pc, &bp).is_ok();
+                    out.push((format!("blinding scalars shifted by (-d, +r d) with the honest run's batching challenge: reference verdict {} (expected false), implementation's verdict {}", rv, iv), !rv && iv == rv));
+                }
+            }
             rewind_for_verifier(&shr);
             crate::refimpl::REF_TAIL.with(|t| *t.borrow_mut() = None);
             out.push(("implementation's proof accepted by the reference verifier (unbatched relations, explicit folding, pinned transcript schedule)".into(), ref_verify(shape, &shr, B, Bb, &Gs, &Hs, &p)));
